@@ -132,6 +132,10 @@ func genC04(g *prng.R) c04Case {
 				}
 			}
 		}
+		if g.Chance(1, 8) {
+			objs = append(A{M{"type": "Person", "name": "someone without id"}}, objs...)
+			cs.Info["anonymous_object_first"] = true
+		}
 		act["object"] = objs
 		if g.Chance(1, 3) {
 			// a Follow usually carries its own addressing; the response is
@@ -397,6 +401,12 @@ func genC04(g *prng.R) c04Case {
 			} else {
 				objs = append(objs, id)
 			}
+		}
+		if g.Chance(1, 8) {
+			// an embedded value that names no id, before the others: it is
+			// none of "those objects this server owns"
+			objs = append(A{M{"type": "Note", "content": "anonymous"}}, objs...)
+			cs.Info["anonymous_object_first"] = true
 		}
 		act["object"] = objs
 	case "Reject":
